@@ -121,10 +121,13 @@ fn run_spec(spec: &Spec) -> common::Report {
         "num" => num::run(spec),
         "calls" => calls::run(spec),
         "mutex" => sc_mutex::run(spec),
+        "qflush" => sc_mutex::run_qflush(spec),
         "stats" => sc_stats::run(spec),
         "sock-unbuf" => sock::unbuffered(spec),
         "sock-buf" => sock::buffered(spec),
         "sock-faults" => sock::stats_faults(spec),
+        "spyq" => sock::spy_bounded(spec),
+        "clientflush" => sock::client_flush(spec),
         other => {
             let mut r = common::Report::new(&spec.raw);
             r.errors.push(format!("unknown engine {:?}", other));
@@ -139,6 +142,7 @@ fn scenario_of(spec: &Spec) -> Option<Box<dyn explore::Scenario>> {
         "holder" => Some(Box::new(sc_holder::scenario(&spec.str("prog", "S1.G")))),
         "queue" => Some(Box::new(sc_queue::scenario(spec))),
         "mutex" => Some(Box::new(sc_mutex::scenario(spec))),
+        "qflush" => Some(Box::new(sc_mutex::qflush_scenario(spec))),
         "stats" => Some(Box::new(sc_stats::scenario(spec))),
         _ => None,
     }
@@ -205,7 +209,18 @@ fn main() {
                         None => (false, format!("no scenario for spec {:?}", spec.raw)),
                     }
                 }
-                other => (false, format!("unknown engine {:?} in replay file", other)),
+                _ => {
+                    // enumeration engines: re-run the instance that found it and look for the same signature
+                    let inst = doc.str_at("instance");
+                    let sig = doc.str_at("sig");
+                    let rep = run_spec(&Spec::parse(&inst));
+                    let hits: Vec<&common::Violation> = rep.violations.iter().filter(|v| v.sig == sig).collect();
+                    let mut text = format!("replay: re-ran instance {}\n", inst);
+                    for v in &hits {
+                        text.push_str(&format!("  BREACH {:?}: {}\n", v.props, v.what));
+                    }
+                    (!hits.is_empty(), text)
+                }
             };
             print!("{}", text);
             if bad {
